@@ -23,7 +23,8 @@ def run(ctx):
                 "RedactUserinfoInURLError call, every observable of the statement compared; T: seeded random pairs recorded "
                 "from the real functions as url.URL field records and re-judged by RedactTrace; S: free-running -race phase, "
                 "several goroutines redact one shared *url.URL while readers read it, judged after wg.Wait() and by RedactConcTrace; "
-                "H: every history of calls on equal/different URLs with the owner mutating returned results (RedactHist.tla) replayed, "
+                "H: every history of calls on inputs, equal inputs and earlier results, with the owner mutating inputs and returned results "
+                "between calls (RedactHist.tla; memo / shortcut / pointer-cache designs refuted) replayed, "
                 "random histories re-judged by RedactHistTrace, the same shape run by concurrent goroutines. "
                 "distinct_nontrivial = distinct pairs with a non-nil userinfo")
     ctx.assumptions += ["url.URL values are built field by field (also combinations url.Parse never produces); strings are ASCII-escaped for TLC",
@@ -92,19 +93,22 @@ def run(ctx):
         shutil.copy(d / f, hd / f)
 
     def hist_job():
-        consts = {"Inputs": "<- ModelInputs", "MaxSteps": 5 if q else 6}
-        invs = ["DependsOnArgOnly", "FreshAcrossCalls", "ResultsAreNotInputs", "InputsNeverWritten"]
+        consts = {"Inputs": "<- ModelInputs", "MaxSteps": 4 if q else 5}
+        invs = ["DependsOnArgOnly", "ErrTextOfThisArg", "FreshAcrossCalls", "ResultsAreNew"]
         write_cfg(hd / "HistMC_run.cfg", "Spec", dict(consts, Impl='"clone"'), invariants=invs, properties=["CallsWriteNothing"])
-        tlc_locked(ctx, hd, "RedactHist", "HistMC_run.cfg", workers=2, label="redact-hist-mc")
-        for inv in ("DependsOnArgOnly", "FreshAcrossCalls"):
-            cfg = "HistMemo_%s.cfg" % inv
-            write_cfg(hd / cfg, "Spec", dict(consts, Impl='"memo"'), invariants=[inv])
+        tlc_locked(ctx, hd, "RedactHist", "HistMC_run.cfg", workers=4, label="redact-hist-mc")
+        # the designs the specification must refute: value-keyed memo of results, "already redacted" shortcut,
+        # pointer-keyed cache of the error text
+        for impl, inv in (("memo", "DependsOnArgOnly"), ("memo", "FreshAcrossCalls"), ("shortcut", "ErrTextOfThisArg"),
+                          ("ptrcache", "ErrTextOfThisArg")):
+            cfg = "Hist_%s_%s.cfg" % (impl, inv)
+            write_cfg(hd / cfg, "Spec", dict(consts, Impl='"%s"' % impl, MaxSteps=4), invariants=[inv])
             r = ctx.tlc(hd, "RedactHist", cfg, workers=2, expect_ok=False, count=False,
-                        label="redact-hist-memo-must-fail-" + inv)
+                        label="redact-hist-%s-must-fail-%s" % (impl, inv))
             if r.violated != inv:
-                raise CheckerError("RedactHist.tla does not refute the value-keyed memo (%s):\n%s"
-                                   % (inv, "\n".join(r.out.splitlines()[-20:])))
-        write_cfg(hd / "HistGen_run.cfg", "GSpec", dict(consts, Impl='"clone"', MaxSteps=4 if q else 5), invariants=["Emit"] + invs)
+                raise CheckerError("RedactHist.tla does not refute the %s design (%s):\n%s"
+                                   % (impl, inv, "\n".join(r.out.splitlines()[-20:])))
+        write_cfg(hd / "HistGen_run.cfg", "GSpec", dict(consts, Impl='"clone"', MaxSteps=3 if q else 4), invariants=["Emit"] + invs)
         tlc_locked(ctx, hd, "RedactHistGen", "HistGen_run.cfg", workers=4, label="redact-hist-gen")
         replay_job(["c16", "replay-hist", hd / "hist_vectors.ndjson"], "hist")
         out = ctx.scratch / "histrec.res"
